@@ -144,4 +144,112 @@ Section Service.
     - intros i Hne. unfold getop. cbn. apply lookup_update_neq. exact Hne.
     - cbn. apply sumss_update. intros o0. reflexivity.
   Qed.
+
+  (* ---- fully_written: the three shapes of the resulting core ---- *)
+  Definition neutral (f : op -> op) : Prop :=
+    forall o, op_pid (f o) = op_pid o /\ op_packet (f o) = op_packet o /\ op_pubrel (f o) = op_pubrel o.
+
+  Lemma WFc_written_pwco X c c' id o f :
+    WFc X c -> gop c id = Some o -> c_cur c = Some id -> needs_pid (op_packet o) = false -> neutral f ->
+    c' = mkCore (update id f (c_ops c)) (c_uq c) (c_rq c) (c_hq c) None (c_alloc c) (c_ppub c) (c_pnon c)
+                (c_pwco c ++ [id]) (c_nid c) (c_npid c) ->
+    WFc X c'.
+  Proof.
+    intros H Hid Hc Hn Hf ->.
+    set (c1 := mkCore (update id f (c_ops c)) (c_uq c) (c_rq c) (c_hq c) (c_cur c) (c_alloc c) (c_ppub c) (c_pnon c)
+                      (c_pwco c) (c_nid c) (c_npid c)).
+    assert (H1 : WFc X c1).
+    { eapply WFc_update; [exact H| |reflexivity]. intros o0 _. destruct (Hf o0) as (F1 & F2 & F3). apply upd_ok_neutral; assumption. }
+    assert (Hid1 : gop c1 id = Some (f o)) by (unfold gop, c1; cbn; apply lookup_update_eq; exact Hid).
+    eapply (WFc_mono X X c1); [exact H1| | | | | | | | | | | |]; cbn; try reflexivity; try lia; try apply H1; auto.
+    - core_cbn. cbn. intros p i o0 Hi Hp T. destruct T as [T|[T|[T|[T|T]]]]; try tauto.
+      rewrite Hc in T. inversion T; subst i. assert (o0 = f o) by (unfold gop, c1 in *; cbn in *; congruence). subst o0.
+      destruct (w_bound _ _ H1 _ _ _ Hid1 Hp) as (_ & _ & B). destruct (Hf o) as (_ & F2 & _). rewrite F2 in B. congruence.
+    - core_cbn. cbn. rewrite Hc. intros i [Hi|[Hi|[Hi|[Hi|Hi]]]]; try tauto; [discriminate|].
+      apply in_app_or in Hi. destruct Hi as [Hi|[<-|[]]]; tauto.
+    - intros i Hi. apply in_app_or in Hi. destruct Hi as [Hi|[<-|[]]]; [tauto|]. right. intros o0 Ho0.
+      assert (o0 = f o) by (unfold gop, c1 in *; cbn in *; congruence). subst o0.
+      destruct (Hf o) as (_ & F2 & _). rewrite F2. exact Hn.
+  Qed.
+
+  Lemma WFc_written_ppub X c c' id o p f :
+    WFc X c -> gop c id = Some o -> c_cur c = Some id -> op_pid o = Some p -> pubq (op_packet o) = true -> neutral f ->
+    c' = mkCore (update id f (c_ops c)) (c_uq c) (c_rq c) (c_hq c) None (c_alloc c) (insert p id (c_ppub c)) (c_pnon c)
+                (c_pwco c) (c_nid c) (c_npid c) ->
+    WFc X c'.
+  Proof.
+    intros H Hid Hc Hp Hk Hf ->.
+    set (c1 := mkCore (update id f (c_ops c)) (c_uq c) (c_rq c) (c_hq c) (c_cur c) (c_alloc c) (c_ppub c) (c_pnon c)
+                      (c_pwco c) (c_nid c) (c_npid c)).
+    assert (H1 : WFc X c1).
+    { eapply WFc_update; [exact H| |reflexivity]. intros o0 _. destruct (Hf o0) as (F1 & F2 & F3). apply upd_ok_neutral; assumption. }
+    assert (Hid1 : gop c1 id = Some (f o)) by (unfold gop, c1; cbn; apply lookup_update_eq; exact Hid).
+    destruct (Hf o) as (F1 & F2 & F3).
+    eapply (WFc_insert_ppub X c1 _ id (f o) p None); [exact H1|exact Hid1|congruence|congruence| |reflexivity].
+    right. split; [reflexivity|exact Hc].
+  Qed.
+
+  Lemma WFc_written_pnon X c c' id o p f :
+    WFc X c -> gop c id = Some o -> c_cur c = Some id -> op_pid o = Some p -> nonk (op_packet o) = true -> neutral f ->
+    c' = mkCore (update id f (c_ops c)) (c_uq c) (c_rq c) (c_hq c) None (c_alloc c) (c_ppub c) (insert p id (c_pnon c))
+                (c_pwco c) (c_nid c) (c_npid c) ->
+    WFc X c'.
+  Proof.
+    intros H Hid Hc Hp Hk Hf ->.
+    set (c1 := mkCore (update id f (c_ops c)) (c_uq c) (c_rq c) (c_hq c) (c_cur c) (c_alloc c) (c_ppub c) (c_pnon c)
+                      (c_pwco c) (c_nid c) (c_npid c)).
+    assert (H1 : WFc X c1).
+    { eapply WFc_update; [exact H| |reflexivity]. intros o0 _. destruct (Hf o0) as (F1 & F2 & F3). apply upd_ok_neutral; assumption. }
+    assert (Hid1 : gop c1 id = Some (f o)) by (unfold gop, c1; cbn; apply lookup_update_eq; exact Hid).
+    destruct (Hf o) as (F1 & F2 & F3).
+    eapply (WFc_insert_pnon X c1 _ id (f o) p None); [exact H1|exact Hid1|congruence|congruence| |reflexivity].
+    right. split; [reflexivity|exact Hc].
+  Qed.
+
+  Definition but_fw (s : state) :=
+    (s_pwc s, s_uq s, s_rq s, s_hq s, s_enc s, s_q2in s, s_alloc s, s_settings s, s_next_id s, s_next_pid s,
+     s_connected_before s, s_dec s, s_next_ping s, s_ping_to s, s_connack_to s, s_ores s, s_ires s, s_ss_count s).
+
+  Lemma neutral_ext now : neutral (fun o : op => o <| op_ext := Some now |>).
+  Proof. intros o. cbn. tauto. Qed.
+
+  Lemma fully_written_spec X (s : state) now id o :
+    WFSx X s -> s_cur s = Some id -> getop s id = Some o -> (needs_pid (op_packet o) = true -> op_pid o <> None) ->
+    exists s', fully_written s now = Ok s' /\ WFSx X s' /\ but_fw s' = but_fw s /\ s_cur s' = None /\
+      s_ops s' = update id (fun o => o <| op_ext := Some now |>) (s_ops s) /\
+      s_st s' = (if is_disconnect (op_packet o) then PendingDisconnect else s_st s) /\
+      (op_user o = false -> s_tmo s' = s_tmo s) /\
+      (needs_pid (op_packet o) = false -> s_pwco s' = s_pwco s ++ [id] /\ s_ppub s' = s_ppub s /\ s_pnon s' = s_pnon s).
+  Proof.
+    intros HW Hc Hid Hb. unfold fully_written. rewrite Hc. unfold getop in Hid. rewrite Hid.
+    assert (Hbound : needs_pid (op_packet o) = true -> exists p, op_pid o = Some p /\ pkt_pid (op_packet o) = Some p).
+    { intros Hn. destruct (op_pid o) as [p|] eqn:Hp; [|exfalso; apply (Hb Hn); reflexivity].
+      exists p. split; [reflexivity|]. apply (w_bound _ _ HW _ _ _ Hid Hp). }
+    assert (Hpw : forall s' : state, needs_pid (op_packet o) = false ->
+              core_of s' = mkCore (update id (fun o => o <| op_ext := Some now |>) (s_ops s)) (s_uq s) (s_rq s) (s_hq s) None
+                                  (s_alloc s) (s_ppub s) (s_pnon s) (s_pwco s ++ [id]) (s_next_id s) (s_next_pid s) ->
+              WFSx X s').
+    { intros s' Hn E. eapply WFc_written_pwco; [exact HW|exact Hid|exact Hc|exact Hn|apply neutral_ext|exact E]. }
+    assert (Hpp : forall (s' : state) p, op_pid o = Some p -> pubq (op_packet o) = true ->
+              core_of s' = mkCore (update id (fun o => o <| op_ext := Some now |>) (s_ops s)) (s_uq s) (s_rq s) (s_hq s) None
+                                  (s_alloc s) (insert p id (s_ppub s)) (s_pnon s) (s_pwco s) (s_next_id s) (s_next_pid s) ->
+              WFSx X s').
+    { intros s' p Hp Hk E. eapply WFc_written_ppub; [exact HW|exact Hid|exact Hc|exact Hp|exact Hk|apply neutral_ext|exact E]. }
+    assert (Hpn : forall (s' : state) p, op_pid o = Some p -> nonk (op_packet o) = true ->
+              core_of s' = mkCore (update id (fun o => o <| op_ext := Some now |>) (s_ops s)) (s_uq s) (s_rq s) (s_hq s) None
+                                  (s_alloc s) (s_ppub s) (insert p id (s_pnon s)) (s_pwco s) (s_next_id s) (s_next_pid s) ->
+              WFSx X s').
+    { intros s' p Hp Hk E. eapply WFc_written_pnon; [exact HW|exact Hid|exact Hc|exact Hp|exact Hk|apply neutral_ext|exact E]. }
+    clear Hb.
+    destruct (op_user o) eqn:Eu; [destruct (op_timeout o) as [d|] eqn:Et; [destruct (IMAX <? now + d) eqn:El|]|];
+    (destruct (op_packet o) as [c|c|pb|a|a|a|a|sb|a|un|a| | |dd|a] eqn:Ep;
+     [ | |destruct (pub_qos pb =? 0) eqn:Eq| | | | | | | | | | | | ]);
+    cbn [obind]; eexists; (split; [reflexivity|]); cbn [is_disconnect]; split.
+    all: try (apply Hpw; [cbn; rewrite ?Eq; reflexivity|reflexivity]; fail).
+    all: try (splits; try reflexivity; try discriminate; cbn; rewrite ?Eq; cbn; try discriminate; intros _; splits; reflexivity).
+    all: match type of Hbound with ?A -> _ => assert (Hn : A) by (cbn; rewrite ?Eq; reflexivity) end;
+         destruct (Hbound Hn) as (p & Hp1 & Hp2); cbn in Hp2; inversion Hp2; subst p;
+         first [ eapply Hpp; [exact Hp1|cbn; rewrite ?Eq; reflexivity|reflexivity]
+               | eapply Hpn; [exact Hp1|reflexivity|reflexivity] ].
+  Qed.
 End Service.
